@@ -224,7 +224,8 @@ class LoadFaultEngine(Engine):
         return {
             'level': 'fault_enumeration',
             'evaluations': 'steps',     # an evaluation is one fault site, not one block
-            'exhaustive': False,
+            # the thorough tier enumerates every single-fault site of the committed corpus (first pass)
+            'exhaustive_in_thorough': True,
             'rule': ('one run = one block of %d consecutive corpus statements (repository SQL/xtUML resources, '
                      'bridgepoint/schema.py texts, %d seeded generated databases); fault sites of a statement: truncation '
                      'after every character, per token delete / duplicate / swap / lexical-class flip / character flips, '
